@@ -83,6 +83,10 @@ pub struct Config {
 #[derive(Clone, Debug, Serialize, Deserialize)]
 pub enum Event {
     Feed { n: usize },
+    /// like `Feed`, but the object is handed to another thread for this read (a fresh thread
+    /// that has just finished an unrelated computation of the same family): an incremental
+    /// state must not depend on the thread that continues it
+    FeedElsewhere { n: usize },
     Final,
     /// between two reads, an unrelated computation of the same primitive family (one-shot and
     /// incremental, over n bytes under another key) runs to completion on the same thread:
@@ -633,6 +637,7 @@ impl World for ChunkWorld {
         if rng.chance(1, 10) {
             return Some(Event::Other { n: *rng.pick(&[0usize, 1, 15, 16, 17, 33, 63, 64, 65, 100, 127, 128, 129, 200]) });
         }
+        let elsewhere = rng.chance(1, 64);
         let b = self.cfg.prim.block();
         let fill = b - self.pending() % b;
         let pol = if self.cfg.policy == Policy::Mixed {
@@ -676,6 +681,9 @@ impl World for ChunkWorld {
         };
         // long messages under byte-sized policies would need thousands of
         // events; after 300 events the rest goes in one piece
+        if elsewhere {
+            return Some(Event::FeedElsewhere { n: n.min(remaining) });
+        }
         Some(Event::Feed { n: n.min(remaining) })
     }
 
@@ -702,6 +710,27 @@ impl World for ChunkWorld {
                 self.fed += n;
                 out.op();
                 out.note(&format!("feed {} -> fed {}", n, self.fed));
+            }
+            Event::FeedElsewhere { n } => {
+                if self.finalised {
+                    return;
+                }
+                let n = (*n).min(self.msg.len() - self.fed);
+                out.fault("continued_on_another_thread");
+                out.shape("E");
+                let chunk = self.msg[self.fed..self.fed + n].to_vec();
+                let this: &mut ChunkWorld = self;
+                std::thread::scope(|s| {
+                    let _ = s
+                        .spawn(|| {
+                            this.other(17);
+                            this.feed(&chunk);
+                        })
+                        .join();
+                });
+                self.fed += n;
+                out.op();
+                out.note(&format!("feed {} on another thread -> fed {}", n, self.fed));
             }
             Event::Other { n } => {
                 if self.finalised {
@@ -760,6 +789,7 @@ impl World for ChunkWorld {
 
     fn shrink(ev: &Event) -> Vec<Event> {
         match ev {
+            Event::FeedElsewhere { n } => vec![Event::Feed { n: *n }],
             Event::Feed { n } if *n > 0 => {
                 let mut v = vec![Event::Feed { n: n / 2 }, Event::Feed { n: n - 1 }];
                 v.dedup_by(|a, b| matches!((a, b), (Event::Feed { n: x }, Event::Feed { n: y }) if x == y));
